@@ -3,6 +3,11 @@
 Copies a confirmed seeded change into /verif/seeded/<id>/ with its meta.json."""
 import sys, os, shutil, json, glob, subprocess
 src, sid, prop, place, rx, caught, needs = sys.argv[1:8]
+if needs == '-' and os.path.exists(src + '/README.md'):
+    import re
+    txt = open(src + '/README.md').read()
+    m = re.search(r'^#+[^\n]*(needs|manifest|trigger)[^\n]*\n(.*?)(?=^#|\Z)', txt, re.S | re.M | re.I)
+    needs = ' '.join(m.group(2).split())[:700] if m else ' '.join(txt.split())[:400]
 dst = '/verif/seeded/' + sid
 os.makedirs(dst, exist_ok=True)
 shutil.copy(src + '/patch.diff', dst + '/patch.diff')
